@@ -187,6 +187,7 @@ func verifC11Kind(err error) string {
 		{"still references the tag to be deleted", "referenced"},
 		{"still references the tag to be renamed", "referenced"},
 		{"failed to attach converter", "complex"},
+		{"query is too complex", "complex"},
 	} {
 		if strings.Contains(m, k[0]) {
 			return k[1]
